@@ -229,7 +229,7 @@ func (rp *Report) RunJobs(jobs []Job, budget time.Duration, accept func(f *wx.Fa
 			rem = 2 * time.Second
 		}
 		share := time.Duration(float64(rem) * w / remW)
-		cfg := wx.Config{MaxDepth: j.MaxDepth, MaxStates: j.MaxStates, Deadline: time.Now().Add(share), IsKnown: isKnown, StopOnViolation: true, CheckEveryReplay: j.CheckEveryReplay}
+		cfg := wx.Config{MaxDepth: j.MaxDepth, MaxStates: j.MaxStates, Deadline: time.Now().Add(share), IsKnown: isKnown, StopOnViolation: true, CheckEveryReplay: j.CheckEveryReplay, Accept: accept}
 		if os.Getenv("VERIF_VERBOSE") != "" {
 			name := j.Sc.Name()
 			cfg.OnLevel = func(d int, st *wx.Stats) {
@@ -285,7 +285,7 @@ func (rp *Report) absorb(j Job, st *wx.Stats, accept func(f *wx.Failure, lastKin
 		// confirm: replay 5 times on fresh runs
 		okN := 0
 		for i := 0; i < 5; i++ {
-			_, f, _ := wx.ReplayFull(j.Sc, fo.Path)
+			_, f, _ := wx.ReplayFull(j.Sc, fo.Path, accept)
 			if f != nil && f.Sig == fo.Sig {
 				okN++
 			}
